@@ -428,6 +428,12 @@ func checkFifoShape(c *Ctx, r *Report, fQueue, fDepth *types.Var) {
 		if k, ok := constInt(v); ok {
 			return fmt.Sprintf("=%d", k)
 		}
+		// depth = len(list) recomputed from the list is the same bookkeeping
+		if call, ok := v.(*ssa.Call); ok {
+			if b, ok := call.Call.Value.(*ssa.Builtin); ok && b.Name() == "len" && isLoad(call.Call.Args[0], fQueue) {
+				return "len"
+			}
+		}
 		if bo, ok := v.(*ssa.BinOp); ok && isLoad(bo.X, fDepth) {
 			if k, ok := constInt(bo.Y); ok {
 				switch bo.Op {
@@ -466,7 +472,7 @@ func checkFifoShape(c *Ctx, r *Report, fQueue, fDepth *types.Var) {
 			if !isLoad(call.Call.Args[0], fQueue) || !singleton(call.Call.Args[1], fn.Params[1]) {
 				return "Enqueue must append exactly its argument at the tail of the current list"
 			}
-			if d := depthDelta(ds[0]); d != "+1" {
+			if d := depthDelta(ds[0]); d != "+1" && d != "len" {
 				return "depth must grow by exactly one (found " + d + ")"
 			}
 			return ""
@@ -486,7 +492,7 @@ func checkFifoShape(c *Ctx, r *Report, fQueue, fDepth *types.Var) {
 			if !singleton(call.Call.Args[0], fn.Params[1]) || !isLoad(call.Call.Args[1], fQueue) {
 				return "Requeue must build [b] followed by the current list (put-back chunks are re-read first)"
 			}
-			if d := depthDelta(ds[0]); d != "+1" {
+			if d := depthDelta(ds[0]); d != "+1" && d != "len" {
 				return "depth must grow by exactly one (found " + d + ")"
 			}
 			return ""
@@ -503,7 +509,7 @@ func checkFifoShape(c *Ctx, r *Report, fQueue, fDepth *types.Var) {
 			if k, ok := constInt(sl.Low); !ok || k != 1 {
 				return "the remaining list must be list[1:]"
 			}
-			if d := depthDelta(ds[0]); d != "-1" {
+			if d := depthDelta(ds[0]); d != "-1" && d != "len" {
 				return "depth must shrink by exactly one (found " + d + ")"
 			}
 			// returned value: element 0 of the list, loaded before the update
@@ -541,7 +547,7 @@ func checkFifoShape(c *Ctx, r *Report, fQueue, fDepth *types.Var) {
 					return "DequeueAll must reset the list to empty"
 				}
 			}
-			if d := depthDelta(ds[0]); d != "=0" {
+			if d := depthDelta(ds[0]); d != "=0" && d != "len" {
 				return "depth must be reset to zero (found " + d + ")"
 			}
 			var listLoad ssa.Instruction
